@@ -250,7 +250,7 @@ CHECKS = {
         "title": "No message or query of the custom modules panics on any input",
         "level": "exploration",
         "technique": "property-based fuzzing (rapid) of all 17 message types and 18 query types with boundary field pools restricted to wire-reachable values; oracle = recover() around ValidateBasic, GetSigners (after a passing ValidateBasic), the registered handler and the query method",
-        "tests": [T("TestC20Msgs", 6000, 40000, qshards=2), T("TestC20Queries", 3000, 20000)],
+        "tests": [T("TestC20Msgs", 6000, 40000, qshards=2), T("TestC20Queries", 3000, 20000), T("TestC20SigStrings", 2000, 10000)],
         "rule": "messages: one of the 17 Msg types of cfevesting, cfeminter, cfedistributor and cfesignature with every field drawn from its boundary pool - addresses {'', malformed, foreign prefix, 1200 chars, module, vesting, fresh, gov, owner}, Int {absent (nil), 0, -1, 2^255, 2^256-1, 10^30, small}, Dec {absent, 0, -0.1, 2, 1, 10^-18, pct}, strings {'', 1 char, 5000 chars, control characters, valid names}, Coins {absent, empty, nil amount, zero, duplicates, unsorted, negative, bad denom, valid}, durations/times {0, -1, 1, max}, minters with absent / every concrete config and boundary amounts, sub-distributors absent or with arbitrary account types - against 5 states (no pools; pools; a pool whose vesting type is gone; pools past lock end; vesting denomination changed by governance). Only wire-reachable values are generated (zero values = omitted fields; no nil entries in repeated fields; every message must survive marshal/unpack with the app codec). "
                 "queries: each of the 18 query methods with the same pools, on 3 states (incl. a traced non-vesting account and stored signature garbage). Non-trivial (messages) = ValidateBasic passed, i.e. the handler ran. Distinct = SHA-256 of (state, message).",
         "min_nontrivial_fraction": 0.3,
